@@ -393,6 +393,28 @@ def _make_async_eio(h):
             if d is not None:
                 h.script.on_packet(h, d)
 
+        def start_background_task(self, target, *args, **kwargs):
+            # same observability as the threaded harness: an exception that
+            # ends a background task is recorded when it happens (asyncio
+            # itself reports it only when the task object is collected)
+            name = getattr(target, '__name__', repr(target))
+
+            async def runner():
+                try:
+                    return await target(*args, **kwargs)
+                except asyncio.CancelledError:
+                    raise
+                except BaseException as e:  # noqa
+                    h.errors.append({
+                        'where': 'background task %s' % name,
+                        'exc': type(e).__name__, 'msg': str(e)[:200],
+                        'tb': traceback.format_exc()[-3000:]})
+                    raise
+            t = asyncio.ensure_future(runner())
+            t.add_done_callback(
+                lambda t: t.cancelled() or t.exception())
+            return t
+
     return ScriptedAsyncEio
 
 
